@@ -59,6 +59,24 @@ def many_outputs(nout, flip):
     return proj_graph(g, "many")
 
 
+def const_out(k, extra):
+    """Output `k` is a constant node (value k); with `extra` there is an ordinary output y = and(a, b) as well."""
+    import networkx as nx
+    from ..proj import proj_graph
+
+    g = nx.DiGraph()
+    g.add_node("a", type="input", output=False)
+    g.add_node("b", type="input", output=False)
+    g.add_node("k", type=k, output=True)
+    if extra:
+        g.add_node("y", type="and", output=True)
+        g.add_edges_from([("a", "y"), ("b", "y")])
+    else:
+        g.add_node("u", type="or", output=False)
+        g.add_edges_from([("a", "u"), ("b", "u")])
+    return proj_graph(g, "kout")
+
+
 def subsets(rng, names, proper_only=False):
     names = sorted(names)
     out = [None]
@@ -113,6 +131,10 @@ def cases(ctx):
                 pairs.append((p, proj(g), "G3swap") if r.random() < 0.5 else (proj(g), p, "G3swap"))
         else:
             pairs.append((p, "limit_fanin", "G3lf"))
+    # a compared endpoint that is a constant node: the same constant in both circuits, or 0 against 1
+    for ka, kb in (("0", "0"), ("1", "1"), ("0", "1")):
+        for extra in (False, True):
+            pairs.append((const_out(ka, extra), const_out(kb, extra), "KOUT"))
     for nout in (8, 9, 16, 17):
         # which comparator a grouping bug would drop depends on set iteration order: every position is tried for 8k+1
         for which in ({0, nout - 1} if ctx.quick and nout % 8 != 1 else set(range(nout))):
@@ -147,11 +169,29 @@ def run_case(case, ctx):
         c1 = build(case["c1"], case.get("ord"))
     S, E = case["S"], case["E"]
     exc, m = "", None
+    rr = ctx.rng("C04rel", case["c0"]["n"], len(case["c0"]["names"][0]))
+    if S is None and E is None and rr.random() < 0.3:
+        # a history on the same objects: the ports are asked for, a port is renamed in place, then the miter is built
+        # with the default startpoints / endpoints (nothing about the old names may be remembered)
+        for cc in (c0, c1):
+            if cc is not None:
+                cc.inputs(), cc.outputs(), cc.startpoints(), cc.endpoints()
+        ports = sorted((c0.inputs() | c0.outputs()) - set(n for n in c0.nodes() if "." in n))
+        if ports:
+            old = rr.choice(ports)
+            new = old + "_rn"
+            if new not in c0 and (c1 is None or new not in c1):
+                c0.relabel({old: new})
+                if c1 is not None and old in c1:
+                    c1.relabel({old: new})
+                case = dict(case, c0=proj(c0), c1=(proj(c1) if (c1 is not None and case["c1"] != "limit_fanin") else case["c1"]))
     try:
         m = cg.tx.miter(c0, c1, startpoints=set(S) if S is not None else None, endpoints=set(E) if E is not None else None)
     except Exception as e:
         exc = type(e).__name__
     pc1 = proj(c1) if c1 is not None else case["c0"]
+    if case["c1"] == "limit_fanin":
+        pc1 = proj(c1)
     ev = {"kind": "miter", "c0": case["c0"], "c1": pc1, "s_given": bool(S), "S": S or [], "e_given": bool(E), "E": E or [],
           "m": proj(m) if m is not None else {}, "exc": exc}
     ev["nontrivial"] = bool(S or E or (c1 is not None))
